@@ -189,7 +189,7 @@ fn pairing_contract_body<const N: usize, const M: usize>() {
     let next = next_change_from_bounds(d, as_array::<N>(&s), as_array::<M>(&e));
     vpost!("C02.dated.pairing.next_change_is_the_end_or_the_start_of_that_interval", next == pairing_next_change(d, &s, &e));
     vcover!("dated.pairing.open", open);
-    vcover!("dated.pairing.closed_between_two_intervals", N < 2 || (!open && d > s.v[0] && d < s.v[N - 1]));
+    vcover!("dated.pairing.closed_between_two_intervals", N < 2 || M == 0 || (!open && d > s.v[0] && d < s.v[N - 1]));
     vcover!("dated.pairing.open_from_the_start_of_time", N != 0 || M == 0 || open);
     vcover!("dated.pairing.closed", !open);
 }
